@@ -68,10 +68,10 @@ XCFG_PAIRWISE = [dict(headers=h, gzip=g, env=e, timeout=t) for h, g, e, t in (
 
 
 def defs(proto, maxel, outcomes, maxatt=4, enabled=True, backoffs="{0}", late=False, stops='{"cancel", "shutdown"}',
-         sdint=True, dev="none", maxclock=24, callto=0, xcfgs=None):
+         sdint=True, dev="none", maxclock=24, callto=0, xcfgs=None, ctxdl=0):
     return {"PROTO": proto, "ENABLED": "TRUE" if enabled else "FALSE", "MAXEL": maxel, "OUTCOMES": tset(outcomes),
             "MAXATT": maxatt, "BACKOFFS": backoffs, "LATE": "TRUE" if late else "FALSE", "STOPKINDS": stops,
-            "SDINT": "TRUE" if sdint else "FALSE", "DEV": dev, "MAXCLOCK": maxclock, "CALLTO": callto,
+            "SDINT": "TRUE" if sdint else "FALSE", "DEV": dev, "MAXCLOCK": maxclock, "CALLTO": callto, "CTXDL": ctxdl,
             "XCFGS": xcfgs or tset([X()])}
 
 
@@ -79,6 +79,14 @@ HUNG = O(kind="hung")
 # transport outcomes of an HTTP attempt: temporary time-out (tmpnet), temporary NOT a time-out (tempnet), permanent
 # (permnet), connection closed (close), next to a few answers
 NET = [O(code=200), O(code=503), O(code=429, thr=1), O(code=400), O(kind="tmpnet"), O(kind="tempnet"), O(kind="permnet"), O(kind="close")]
+# RetryConfig VALUE classes (round 6).  BIG = a value beyond the library's default elapsed-time limit (DefaultME = 60 in
+# OtlpRetry.tla); big model values are concretized in SECONDS (the default limit is one minute), everything else in ticks.
+BIG = 60
+CTXDL = {
+    "http": [O(code=200), O(code=503), O(code=503, thr=90), O(code=429, thr=1), O(code=400), O(code=504, slow=1)],
+    "grpc": [O(code=0), O(code=14), O(code=14, ri=True, thr=90), O(code=8, ri=True, thr=90), O(code=8, ri=True, thr=1), O(code=3),
+             O(code=4, slow=1)],
+}
 DEVIATIONS = [  # (deviation, proto, enabled, clause the monitor must report)
     ("tempOnlyTimeout", "http", True, "gave-up-early"),
     ("permRetried", "http", True, "retry-after-nonretryable"),
@@ -121,6 +129,9 @@ def features(b):
         else:
             ks.add("stop:%s:%s:%d" % (h["how"], h["at"], pos))
     ks.add("ret:%s:%d:me%d" % (b["want"]["err"], b["want"]["attempts"], b["maxel"]))
+    if b.get("ctxdl"):
+        ks.add("ctxdl:%s:%d:me%d:b%d:%s" % (b["want"]["err"], b["want"]["attempts"], b["maxel"], max(b.get("boffs") or [0]),
+                                           "+".join("%d" % h["thr"] for h in b["hist"] if h["i"] == "o")))
     ks.add("clock:%d:me%d" % (b["want"]["clock"], b["maxel"]))
     return ks
 
@@ -177,7 +188,9 @@ def to_scenario(b, exp, sid, rng, tol_us, xcfg, concrete=True, src="tlc"):
     """TLC behaviour -> scenario for harness/c14 (None if the stop point cannot be targeted from outside)"""
     proto = b["proto"]
     hist = b["hist"]
-    has_thr = any(h["i"] == "o" and h["thr"] > 0 for h in hist)
+    has_thr = any(h["i"] == "o" and 0 < h["thr"] < BIG for h in hist)
+    ctxdl = b.get("ctxdl", 0)
+    big_boff = max(b.get("boffs") or [0]) >= BIG
     has_tmp = any(h["kind"] == "tmpnet" for h in hist)
     has_close = any(h["kind"] == "close" for h in hist)
     callto = b.get("callto", 0)
@@ -191,7 +204,7 @@ def to_scenario(b, exp, sid, rng, tol_us, xcfg, concrete=True, src="tlc"):
     for h in hist:
         if h["i"] == "o":
             items.append({"kind": h["kind"], "code": concretize(proto, h, rng) if concrete else h["code"], "partial": h["partial"],
-                          "ri": h["ri"], "thr_us": h["thr"] * tick, "slow_us": h["slow"] * tick, "stop": "", "stopAfter": "",
+                          "ri": h["ri"], "thr_us": h["thr"] * (1_000_000 if h["thr"] >= BIG else tick), "slow_us": h["slow"] * tick, "stop": "", "stopAfter": "",
                           "stopDelay_us": 0})
         elif h["at"] == "before":
             stop_before = "cancel"
@@ -217,6 +230,13 @@ def to_scenario(b, exp, sid, rng, tol_us, xcfg, concrete=True, src="tlc"):
           "tol_us": tol_us, "tick_us": tick, "items": items, "stopBefore": stop_before,
           "sdctx": rng.choice(["bg", "expired"]), "xcfg": xcfg, "grp": 0,
           "want": dict(b["want"], valid=not has_close)}
+    if ctxdl:
+        # value classes of the policy: zero / tiny / ordinary intervals (model: backoff 0) or huge ones (model: backoff BIG);
+        # a big limit in seconds; the caller's deadline in ticks
+        sc["dl_us"] = ctxdl * tick
+        sc["initial_us"], sc["maxint_us"] = (300_000_000, 400_000_000) if big_boff else rng.choice([(0, 0), (1, 1), (1000, 2000), (0, 1000)])
+        if maxel >= BIG:
+            sc["maxel_us"] = maxel * 1_000_000
     return sc
 
 
@@ -304,6 +324,33 @@ def directed(sid0, tol_us, xcfgs, grp0=1):
     return out
 
 
+def directed_cfgvalues(sid0, tol_us):
+    """RetryConfig value classes x a server-supplied delay beyond the default limit x a short caller deadline, on all six
+    exporters (each is a behaviour shape of the mc-*-ctxdl runs); judged by the contract monitor only"""
+    out = []
+    sid = sid0
+    for proto in ("http", "grpc"):
+        ok = 200 if proto == "http" else 0
+        for exp in EXPS[proto]:
+            k = 0
+            for initial, maxint in ((0, 0), (1, 1), (1000, 2000), (5_000_000, 30_000_000), (300_000_000, 400_000_000)):
+                for maxel in (0, 1, 100_000_000, 1_000_000_000):
+                    for thr in (90_000_000, 0):
+                        if thr == 0 and initial < 300_000_000:
+                            continue   # without a hint only huge intervals keep the call waiting
+                        codes = (503, 429) if proto == "http" else (14, 8)
+                        k += 1
+                        out.append({"id": sid, "name": "cfgvalues-i%d-m%d-me%d-thr%d" % (initial, maxint, maxel, thr), "src": "directed",
+                                    "exp": exp, "enabled": True, "initial_us": initial, "maxint_us": maxint, "maxel_us": maxel,
+                                    "atto_us": 0, "cto_us": 0, "tol_us": tol_us, "tick_us": 50_000, "dl_us": 250_000 + 10_000 * (k % 7),
+                                    "items": [item(code=codes[k % 2] if thr else codes[0], ri=(proto == "grpc" and thr > 0), thr_us=thr),
+                                              item(code=ok)],
+                                    "stopBefore": "", "sdctx": "expired", "xcfg": XCFG_PAIRWISE[k % len(XCFG_PAIRWISE)], "grp": 0,
+                                    "want": {"valid": False, "attempts": 0, "err": False, "handled": 0, "clock": 0}})
+                        sid += 1
+    return out
+
+
 def index_by_scenario(path):
     by = {}
     with open(path) as f:
@@ -368,6 +415,17 @@ def run(ctx):
             want_edges=True, timeout=1500, coverage=(maxel == 2))
     job("check", "grpc", "mc-grpc-cto3-late", defs("grpc", 5, ALPHA["grpc"] + [HUNG], maxatt=3, callto=3, late=True, backoffs="{0, 1}",
                                                   sdint=False), timeout=1500)
+    # RetryConfig value classes: no limit / small limit / limit beyond the default one, zero or huge backoff intervals, a
+    # server-supplied delay beyond the default limit, under a caller deadline of 3 ticks that ends every long wait
+    for proto in ("http", "grpc"):
+        for maxel, boffs in ((0, "{0}"), (5, "{0}"), (100, "{0}"), (0, "{100}"), (100, "{100}")):
+            job("export", proto, "mc-%s-ctxdl-me%d-b%s" % (proto, maxel, boffs.strip("{}")),
+                defs(proto, maxel, CTXDL[proto], maxatt=3, backoffs=boffs, stops="{}", ctxdl=3), want_edges=True, timeout=900)
+        job("check", proto, "mc-%s-ctxdl-late" % proto,
+            defs(proto, 0, CTXDL[proto], maxatt=3, backoffs="{0, 1}", late=True, stops='{"cancel"}', ctxdl=3), timeout=900)
+        for maxel in (0, 100):   # an unlimited / larger configured limit silently replaced by the default one
+            job("dev:defaultME:gave-up-early", proto, "dev-defaultME-%s-me%d" % (proto, maxel),
+                defs(proto, maxel, CTXDL[proto], maxatt=2, dev="defaultME", stops="{}", ctxdl=3), must_pass=False, count=False, timeout=600)
     # the monitor must notice seeded deviations of the loop (guards against a vacuous contract)
     for dev, proto, enabled, clause in DEVIATIONS:
         grpc_to = dev == "timeoutIgnored" and proto == "grpc"
@@ -432,7 +490,7 @@ def run(ctx):
     phases["tlc"] = round(time.time() - t_start, 1)
 
     # ------------------------------------------------------------ spec -> code: behaviours as collector scripts
-    per_proto = 4000 if thorough else 210
+    per_proto = 4000 if thorough else 260
     scenarios = []
     sid = 1
     uncovered = 0
@@ -458,6 +516,8 @@ def run(ctx):
     nbeh = len(scenarios)
     # directed stop / cancel / timeout / throttle families: pairwise option sets (quick), full product (thorough)
     scenarios += directed(sid, tol_us, XCFG_PRODUCT if thorough else XCFG_PAIRWISE)
+    sid = scenarios[-1]["id"] + 1
+    scenarios += directed_cfgvalues(sid, tol_us)
     sid = scenarios[-1]["id"] + 1
     ctx.extra["tlc_behaviours_replayed"] = nbeh
     ctx.extra["directed_cases"] = len(scenarios) - nbeh
@@ -526,6 +586,13 @@ def run(ctx):
                     sig["outcome"] = vv["lastkind"]   # transport-level outcome (tmpnet / tempnet / permnet / hung / close)
             if vv["kind"] == "cfg-dependent-outcome":
                 sig["case"] = cfg.get("name")
+            if vv["kind"] in ("gave-up-early", "late-return-after-deadline", "no-return") and cfg.get("dl"):
+                # RetryConfig value class of the scenario (facts of the Cfg line and of the V record, no judgement)
+                me = cfg.get("maxel", 0)
+                sig["backoff"] = "zero-interval" if cfg.get("enabled") and min(cfg.get("initial", 1), cfg.get("maxint", 1)) == 0 else "nonzero"
+                sig["limit"] = "none(MaxElapsedTime=0)" if me == 0 else ("beyond-default" if me > 60_000_000 else "configured")
+                sig["throttle"] = "beyond-default-limit" if vv["thr"] > 60_000_000 else ("hint" if vv["thr"] > 0 else "none")
+                sig["caller"] = "short-deadline"
             if vv["kind"] == "attempt-after-max-elapsed":
                 # x = collector-side elapsed + throttle; was the limit exceeded only because of the server-supplied delay?
                 sig["why"] = "throttle" if vv["x"] - vv["thr"] <= cfg.get("maxel", 0) and vv["thr"] > 0 else "elapsed"
@@ -593,7 +660,8 @@ def run(ctx):
     # vacuity of the drivers: the interesting regimes must have been reached
     for need in ("item_throttled", "item_hold", "item_tmpnet", "item_tempnet", "item_permnet", "item_hung", "stop_cancel", "stop_shutdown", "exp_tracehttp",
                  "exp_tracegrpc", "exp_metrichttp", "exp_metricgrpc", "exp_loghttp", "exp_loggrpc", "xcfg_headers0", "xcfg_headers1",
-                 "xcfg_headers3", "xcfg_gzip", "xcfg_env", "xcfg_timeout_explicit", "xcfg_timeout_default"):
+                 "xcfg_headers3", "xcfg_gzip", "xcfg_env", "xcfg_timeout_explicit", "xcfg_timeout_default", "ctx_deadline",
+                 "ctx_deadline_unlimited_policy"):
         if not counters.get(need):
             ctx.note_inconclusive("driver vacuity: counter %s is zero" % need)
     ctx.exhaustive = False
@@ -644,6 +712,6 @@ def rebuild_from_trace(evs, tol_us):
                 break
     return {"id": 0, "name": "rebuilt", "src": "rerun", "exp": cfg["exp"], "enabled": cfg["enabled"], "initial_us": cfg["initial"],
             "maxint_us": cfg["maxint"], "maxel_us": cfg["maxel"], "atto_us": cfg["atto"], "cto_us": cfg["cto"], "tol_us": tol_us,
-            "tick_us": cfg["tick"], "items": items, "stopBefore": stop_before, "sdctx": "expired", "grp": 0,
+            "tick_us": cfg["tick"], "items": items, "stopBefore": stop_before, "sdctx": "expired", "grp": 0, "dl_us": cfg.get("dl", 0),
             "xcfg": {"headers": cfg["nhdr"], "gzip": cfg["enc"] == "gzip", "env": cfg["env"], "timeout": cfg["tmo"]},
             "want": {"valid": False, "attempts": 0, "err": False, "handled": 0, "clock": 0}}
